@@ -7,7 +7,7 @@ Fail-closed."""
 import ast
 import os
 
-from .engine import Mismatch, need, src, code
+from .engine import Mismatch, need, src, code, fun_def
 
 
 def uses(tree, name):
@@ -47,21 +47,65 @@ def run(repo, gen):
     need(len(reg) == 1 and [src(s) for s in code(reg[0].body)] == ["notrace_primitives[trace_type].add(primitive_fun)"], "tracer.register_notrace adds to notrace_primitives[trace_type]")
     for n in names:
         need(n.isidentifier() and len(n) < 40, "name %r" % n)
+    # ---- an output that does not depend on the argument: trace() hands back no end node, make_vjp / make_jvp answer with zeros ----
+    tr = fun_def(tt, "trace")
+    withs = [s_ for s_ in code(tr.body) if isinstance(s_, ast.With)]
+    need(len(withs) == 1 and src(withs[0].items[0].context_expr) == "trace_stack.new_trace()", "trace(): one `with trace_stack.new_trace() as t` block")
+    wb = code(withs[0].body)
+    need(len(wb) == 3 and src(wb[0]) == "start_box = new_box(x, t, start_node)" and src(wb[1]) == "end_box = fun(start_box)" and isinstance(wb[2], ast.If),
+         "trace(): box the argument, call the function, test the result")
+    need(src(wb[2].test) == "isbox(end_box) and end_box._trace == start_box._trace", "trace(): the output depends on the input iff it is a box of this very trace; found %r" % src(wb[2].test))
+    need([src(t) for t in code(wb[2].body)] == ["return (end_box._value, end_box._node)"], "trace(): dependent output: its value and its node")
+    eb = code(wb[2].orelse)
+    need(len(eb) == 2 and src(eb[0]).startswith("warnings.warn(") and src(eb[1]) == "return (end_box, None)", "trace(): independent output: the value itself and no node")
+    core = ast.parse(open(os.path.join(repo, "autograd", "core.py")).read())
+
+    def zeros_of(e, what):
+        need(isinstance(e, ast.Call) and not e.args and isinstance(e.func, ast.Attribute) and e.func.attr == "zeros" and isinstance(e.func.value, ast.Call)
+             and src(e.func.value.func) == "vspace" and len(e.func.value.args) == 1, "%s: expected vspace(<value>).zeros(), found %r" % (what, src(e)))
+        x = src(e.func.value.args[0])
+        need(x in ("x", "end_value"), "%s: zeros of vspace(%s) is neither the argument's nor the output's space" % (what, x))
+        return "ZOfArgument" if x == "x" else "ZOfOutput"
+    mv = code(fun_def(core, "make_vjp").body)
+    need(len(mv) == 4 and src(mv[0]) == "start_node = VJPNode.new_root()" and src(mv[1]) == "end_value, end_node = trace(start_node, fun, x)"
+         and isinstance(mv[2], ast.If) and src(mv[2].test) == "end_node is None" and src(mv[3]) == "return (vjp, end_value)", "make_vjp skeleton")
+    v_none, v_dep = code(mv[2].body), code(mv[2].orelse)
+    need(len(v_none) == 1 and isinstance(v_none[0], ast.FunctionDef) and v_none[0].name == "vjp" and len(code(v_none[0].body)) == 1 and isinstance(code(v_none[0].body)[0], ast.Return),
+         "make_vjp: the pull-back of an independent output is one return")
+    zv = zeros_of(code(v_none[0].body)[0].value, "make_vjp")
+    need(len(v_dep) == 1 and isinstance(v_dep[0], ast.FunctionDef) and [src(t) for t in code(v_dep[0].body)] == ["return backward_pass(g, end_node)"], "make_vjp: dependent output: the backward pass")
+    mj = code(fun_def(core, "make_jvp").body)
+    need(len(mj) == 2 and isinstance(mj[0], ast.FunctionDef) and mj[0].name == "jvp" and src(mj[1]) == "return jvp", "make_jvp skeleton")
+    jb = code(mj[0].body)
+    need(len(jb) == 3 and src(jb[0]) == "start_node = JVPNode.new_root(g)" and src(jb[1]) == "end_value, end_node = trace(start_node, fun, x)"
+         and isinstance(jb[2], ast.If) and src(jb[2].test) == "end_node is None", "make_jvp.jvp skeleton")
+    j_none, j_dep = code(jb[2].body), code(jb[2].orelse)
+    need(len(j_none) == 1 and isinstance(j_none[0], ast.Return) and isinstance(j_none[0].value, ast.Tuple) and len(j_none[0].value.elts) == 2
+         and src(j_none[0].value.elts[0]) == "end_value", "make_jvp: independent output: (end_value, zeros)")
+    zj = zeros_of(j_none[0].value.elts[1], "make_jvp")
+    need([src(t) for t in j_dep] == ["return (end_value, end_node.g)"], "make_jvp: dependent output: the tangent of the end node")
     text = """(* GENERATED by harness/translators/nograd.py from autograd/numpy/numpy_vjps.py (nograd_functions) - do not edit. *)
-From Coq Require Import List String.
+From Coq Require Import List String ZArith Bool.
 Import ListNotations.
+From AG Require Import Extend.
 Open Scope string_scope.
 
 (* registered as notrace for VJPNode (numpy_vjps.py) and for JVPNode (numpy_jvps.py) *)
 Definition gen_nograd : list string :=
   [%s].
-""" % ";\n   ".join('"%s"' % n for n in names)
+
+(* tracer.trace: `if isbox(end_box) and end_box._trace == start_box._trace` - the output depends on the input *)
+Definition gen_output_depends (is_box : bool) (trace_end trace_start : Z) : bool := is_box && (trace_end =? trace_start)%%Z.
+(* otherwise: core.make_vjp answers vspace(<this>).zeros(), core.make_jvp answers (end_value, vspace(<this>).zeros()) *)
+Definition gen_independent_vjp_zero : zero_space := %s.
+Definition gen_independent_jvp_zero : zero_space := %s.
+""" % (";\n   ".join('"%s"' % n for n in names), zv, zj)
     path = os.path.join(gen, "GenNograd.v")
     try:
         if open(path).read() == text:
-            return {"n": len(names)}
+            return {"n": len(names), "zeros": [zv, zj]}
     except OSError:
         pass
     with open(path, "w") as fh:
         fh.write(text)
-    return {"n": len(names)}
+    return {"n": len(names), "zeros": [zv, zj]}
